@@ -111,13 +111,18 @@ fn plan(sc: &Scenario, seed: u64, variant: &str) -> Plan {
     let old_cfg = Cfg { version: sc.version, shift: 3, method: 0x02, enc: 0, crc: false, attr: 0, listfile: true, tblcomp: false };
     if sc.compact {
         // initial set of 5, then +2 added, 2 of the initial and 1 of the added removed
-        let sizes: Vec<usize> = (0..5).map(|_| 1 + rng.usize(700)).collect();
+        // three small members (two of them get removed) and two multi-sector members that stay (sector table, per-sector
+        // reads during compaction)
+        let mut sizes: Vec<usize> = (0..5).map(|_| 1 + rng.usize(700)).collect();
+        for s in sizes.iter_mut().skip(3) {
+            *s = 2 * 4096 + 1 + rng.usize(9000);
+        }
         let initial = gen_files(&mut rng, "i", &sizes);
         let asz: Vec<usize> = (0..2).map(|_| 1 + rng.usize(500)).collect();
         // variant "remove-only": no additions (used when add+flush does not yield a readable archive on this tree)
         let mut added = gen_files(&mut rng, "a", &asz);
-        let r0 = rng.usize(5);
-        let r1 = (r0 + 1 + rng.usize(4)) % 5;
+        let r0 = rng.usize(3);
+        let r1 = (r0 + 1 + rng.usize(2)) % 3;
         let ra = rng.usize(2);
         let mut removed = vec![initial[r0].name.clone(), initial[r1].name.clone(), added[ra].name.clone()];
         if variant == "remove-only" {
